@@ -292,6 +292,7 @@ func (r *Report) Finish(findingsDir, verifDir string, seed int64) int {
 	r.Analysed["module_functions_with_bodies"] = r.w.NFuncs
 	r.Analysed["load_s"] = r.w.LoadS
 	r.Analysed["ssa_s"] = r.w.SSAS
+	r.Analysed["captured_locals_promoted"] = r.w.Promoted
 	ruleIDs := []string{}
 	for _, ri := range r.Rules {
 		ruleIDs = append(ruleIDs, ri.ID)
